@@ -3,6 +3,7 @@ package mon
 import (
 	"bytes"
 	"context"
+	"unsafe"
 	"encoding/binary"
 	"fmt"
 	"io"
@@ -407,7 +408,58 @@ func (p tthParams) infoSizeUnpadded() int {
 	return m
 }
 
+// countingWriter is a bufiox.Writer that does not keep what it is given: small regions come from a
+// scratch ring, WriteBinary only counts. It lets the encoder run over parameters of any size.
+type countingWriter struct {
+	scratch [1 << 16]byte
+	n       int
+	head    []byte // the first 64 bytes (meta block), kept
+}
+
+func (w *countingWriter) Malloc(n int) ([]byte, error) {
+	var b []byte
+	if w.n < 64 && n <= 64-w.n {
+		if w.head == nil {
+			w.head = make([]byte, 64)
+		}
+		b = w.head[w.n : w.n+n]
+	} else if n <= len(w.scratch) {
+		b = w.scratch[:n]
+	} else {
+		b = make([]byte, n)
+	}
+	w.n += n
+	return b, nil
+}
+func (w *countingWriter) WriteBinary(bs []byte) (int, error) { w.n += len(bs); return len(bs), nil }
+func (w *countingWriter) WrittenLen() int                    { return w.n }
+func (w *countingWriter) Flush() error                       { return nil }
+
 func monC06(c *drv.Ctx) {
+	if !c.Slow() && c.Flavour == "plain" {
+		// parameters whose header info exceeds 2^32 bytes (the limit check must not be fooled by the low 32 bits)
+		c.Stage("over-4GiB-parameter", 3, true, func(cs *drv.Case) {
+			huge := make([]byte, 1<<32+3+int(cs.Idx)) // untouched zero pages
+			hs := unsafe.String(&huge[0], len(huge))
+			p := ttheader.EncodeParam{SeqID: 7}
+			switch cs.Idx {
+			case 0:
+				p.StrInfo = map[string]string{ref.TokenKey: hs}
+			case 1:
+				p.StrInfo = map[string]string{"k": hs}
+			default:
+				p.IntInfo = map[uint16]string{1: hs}
+			}
+			w := &countingWriter{}
+			_, err := ttheader.Encode(context.Background(), p, w)
+			cs.Desc = M{"parameter_bytes": len(hs), "shape": cs.Idx}
+			if err == nil {
+				cs.Fail("encode-oversize-accepted", M{"size": ">4GiB"}, M{"written": w.n, "size_field": fmt.Sprintf("%x", w.head[12:14]), "message": "a header with more than 2^32 info bytes was encoded without error"})
+			}
+			cs.Count(true, "4gib", cs.Idx)
+			cs.C.Obs("parameters beyond 4 GiB", 1)
+		})
+	}
 	// (0) self-check of the constant the oracle hard-codes
 	c.Stage("token-key-constant", 1, true, func(cs *drv.Case) {
 		if ttheader.GDPRToken != ref.TokenKey {
